@@ -13,3 +13,4 @@ pub mod props;
 pub mod refmatch;
 pub mod refrules;
 pub mod rxgen;
+pub mod viable;
